@@ -92,12 +92,22 @@ fn shapes_case<P: G>(cfg: Cfg) -> Box<dyn Case> {
             wit.seed = Some(seed_scalar(8));
         }
         let built = build_cached::<P>(&cfg, &wit).honest();
-        let honest_proof = lib_prove(&built, &CTX_A, &mut HRng::chacha(14)).honest();
-        let (hobs, honest) = measured_verify(std::slice::from_ref(&built.statement), std::slice::from_ref(&honest_proof), &[CTX_A], VerifyAction::RecoverAndVerify);
-        if !hobs.is_ok() {
-            // no honest baseline to bound the cost against: C01's finding, not this property's
-            res.outcome = "honest-baseline-not-accepted(skipped)".into();
-            return res;
+        // the honest verification of the same statement is the yardstick for the COST bound only; without one (the prover
+        // refuses or panics, or its proof is not accepted: other properties' findings) the no-panic oracle still applies
+        let honest: Option<Cost> = match catch(|| lib_prove(&built, &CTX_A, &mut HRng::chacha(14))) {
+            Ok(Ok(honest_proof)) => {
+                let (hobs, cost) = measured_verify(std::slice::from_ref(&built.statement), std::slice::from_ref(&honest_proof), &[CTX_A], VerifyAction::RecoverAndVerify);
+                expect_no_panic(&hobs, "honest-proof/RecoverAndVerify", &mut res);
+                if hobs.is_ok() {
+                    Some(cost)
+                } else {
+                    None
+                }
+            },
+            _ => None,
+        };
+        if honest.is_none() {
+            *res.outcome_counter("no-honest-cost-baseline(no-panic oracle only)") += 1;
         }
         let point = built.params.h_base().g_compress();
         let log_nc = (cfg.n * cfg.c).trailing_zeros() as usize;
@@ -119,14 +129,16 @@ fn shapes_case<P: G>(cfg: Cfg) -> Box<dyn Case> {
                     let (obs, cost) = measured_verify(std::slice::from_ref(&built.statement), std::slice::from_ref(&proof), &[CTX_A], mode);
                     let sub = format!("d'={},k'={}/{}", d2, k2, mode_name(mode));
                     expect_no_panic(&obs, &sub, &mut res);
-                    check_cost(&honest, &cost, 5 + d2 + 2 * k2, &sub, &mut res);
+                    if let Some(h) = &honest {
+                        check_cost(h, &cost, 5 + d2 + 2 * k2, &sub, &mut res);
+                    }
                     if obs.is_ok() && mode != VerifyAction::RecoverOnly {
                         *res.outcome_counter("constant-proof-accepted(noted: C02)") += 1;
                     }
                 }
             }
         }
-        res.sample = Some(json!({"cfg": cfg.key(), "honest_ops": honest.ops, "honest_alloc_bytes": honest.bytes}));
+        res.sample = Some(json!({"cfg": cfg.key(), "honest_ops": honest.as_ref().map(|h| h.ops), "honest_alloc_bytes": honest.as_ref().map(|h| h.bytes)}));
         res
     })
 }
@@ -141,12 +153,12 @@ fn points_and_promises_case<P: G>(cfg: Cfg) -> Box<dyn Case> {
             wit.seed = Some(seed_scalar(8));
         }
         let built = build_cached::<P>(&cfg, &wit).honest();
-        let proof = lib_prove(&built, &CTX_A, &mut HRng::chacha(15)).honest();
+        let proof = lib_prove_honest(&built, &CTX_A, &mut HRng::chacha(15));
         let (_, honest) = measured_verify(std::slice::from_ref(&built.statement), std::slice::from_ref(&proof), &[CTX_A], VerifyAction::RecoverAndVerify);
         if let Some(rp) = refbp::ref_decode(&P::to_bytes(&proof)) {
             let h = built.params.h_base().clone();
             for m in mutate::menu(&rp, false) {
-                if !matches!(m, Mut::PointIdentity(_) | Mut::PointUndecodable(_) | Mut::PointPlusH(_) | Mut::PointCopy(..) | Mut::DropRound | Mut::DupRound) {
+                if !matches!(m, Mut::PointIdentity(_) | Mut::PointUndecodable(_) | Mut::PointPlusH(_) | Mut::PointCopy(..) | Mut::DropRound | Mut::DupRound | Mut::AppendRounds(_)) {
                     continue;
                 }
                 if let Some(b) = mutate::apply::<P>(&rp, &m, &h) {
@@ -156,7 +168,12 @@ fn points_and_promises_case<P: G>(cfg: Cfg) -> Box<dyn Case> {
                             let (obs, cost) = measured_verify(std::slice::from_ref(&built.statement), std::slice::from_ref(&p2), &[CTX_A], mode);
                             let sub = format!("{:?}/{}", m, mode_name(mode));
                             expect_no_panic(&obs, &sub, &mut res);
-                            check_cost(&honest, &cost, 5 + cfg.d + 2 * rp.l.len() + 2, &sub, &mut res);
+                            // the per-element allowance is that of the input actually presented (appended rounds make it longer).
+                            // Over F an appended copy of an honest L/R is a map with one entry per generator (kilobytes, a harness
+                            // artefact), so the allocation bound for appended rounds is judged on Ristretto only.
+                            if !(P::IS_F && matches!(m, Mut::AppendRounds(_))) {
+                                check_cost(&honest, &cost, (b.len() / 32).max(5 + cfg.d + 2 * rp.l.len()) + 2, &sub, &mut res);
+                            }
                         }
                     }
                 }
@@ -223,7 +240,11 @@ fn batch_case<P: G>(d: usize, seq: Vec<usize>) -> Box<dyn Case> {
             let witness = witness_for(&wit).unwrap();
             let ctx = contexts()[pos % 6];
             let mut t = ctx.transcript();
-            let proof = P::prove(&mut t, &st, &witness, &mut HRng::chacha(16 + pos as u64)).unwrap();
+            // an honest proof is only the raw material for the members: a prover that refuses or panics is not this property's
+            let proof = match catch(|| P::prove(&mut t, &st, &witness, &mut HRng::chacha(16 + pos as u64))) {
+                Ok(Ok(p)) => p,
+                other => std::panic::panic_any(HonestPrecondition(format!("an honest prove failed: {:?}", other.map(|r| r.map(|_| ()).map_err(|e| crate::api::err_name(&e)))))),
+            };
             let mut rp = ref_proof_of(&proof).unwrap();
             match kind {
                 "hostile-degree" => {
@@ -284,12 +305,18 @@ fn long_batch_case<P: G>(layout: &'static str) -> Box<dyn Case> {
         let mut ctxs = Vec::new();
         for pos in 0..total {
             let big = big_at.contains(&pos);
-            let cfg = if big { Cfg::new(n, 2, 2, d) } else { Cfg::new(n, 1, 1, d) };
+            // capacity beyond the aggregate (padding in the final multiscalar multiplication) together with a long member list
+            let cap = match layout {
+                "spare-capacity" => 4,
+                "mixed-capacity" => [1usize, 4, 2][pos % 3],
+                _ => 1,
+            };
+            let cfg = if big { Cfg::new(n, 2, 2 * cap, d) } else { Cfg::new(n, 1, cap, d) };
             let mut wit = Wit::default_for(&cfg);
             wit.values[0] = (pos % 4) as u64;
             let built = build_cached::<P>(&cfg, &wit).honest();
             let ctx = contexts()[pos % 6];
-            proofs.push(lib_prove(&built, &ctx, &mut HRng::chacha(pos as u64)).honest());
+            proofs.push(lib_prove_honest(&built, &ctx, &mut HRng::chacha(pos as u64)));
             sts.push(built.statement.clone());
             ctxs.push(ctx);
         }
@@ -417,7 +444,7 @@ pub fn build_cases(tier: Tier) -> Vec<Box<dyn Case>> {
             cases.push(huge_aggregation_case::<RistrettoPoint>(m));
         }
     }
-    for layout in ["big-first", "big-at-255", "big-last", "big-first-and-last", "uniform"] {
+    for layout in ["big-first", "big-at-255", "big-last", "big-first-and-last", "uniform", "spare-capacity", "mixed-capacity"] {
         cases.push(long_batch_case::<F>(layout));
         cases.push(long_batch_case::<RistrettoPoint>(layout));
     }
